@@ -342,6 +342,10 @@ class Sim:
         self.nontrivial['dbs'] |= set(p._blocks.keys())
 
     def emit(self, ev, where=None):
+        if ALARMED[0] is not None:      # the alarm went off inside a Task step (asyncio swallowed it)
+            raise Runaway('an atomic section of the pool did not return within the time limit (in ' + ALARMED[0] + ')')
+        if len(self.trace) > MAX_EVENTS:
+            raise Runaway('the schedule produced more than %d events (the pool keeps generating work)' % MAX_EVENTS)
         self.trace.append(ev)
         self.check(where or ev)
         self.dig.append(self.digest())
@@ -686,7 +690,46 @@ class Sim:
                 'final': self.dig[-1] if self.dig else ''}
 
 
+class Runaway(BaseException):
+    pass
+
+
+ALARMED = [None]
+
+
+def _alarm(signum, frame):
+    import traceback
+    ALARMED[0] = ' <- '.join(f.name for f in traceback.extract_stack(frame)[-6:])
+    raise Runaway('an atomic section of the pool did not return within the time limit')
+
+
+CASE_SECONDS = float(os.environ.get('C15_CASE_SECONDS', '8'))
+MAX_EVENTS = 20000
+
+
+N_RUNAWAY = 0
+
+
 def run_case(line):
+    # a broken pool may loop for ever inside one atomic section: bound every case, and do not
+    # spend minutes when (almost) every case of this process runs away
+    global N_RUNAWAY
+    import signal
+    if N_RUNAWAY >= 12:
+        return {'trace': '', 'dig': [], 'mon': [], 'skipped': 'too many runaway cases in this process'}
+    ALARMED[0] = None
+    signal.signal(signal.SIGALRM, _alarm)
+    signal.setitimer(signal.ITIMER_REAL, CASE_SECONDS if N_RUNAWAY < 2 else 1.5)
+    try:
+        r = _run_case(line)
+    finally:
+        signal.setitimer(signal.ITIMER_REAL, 0)
+    if r.get('runaway'):
+        N_RUNAWAY += 1
+    return r
+
+
+def _run_case(line):
     head, _, body = line.partition(';')
     hp = head.split(',')
     maxc, gc_ms = int(hp[0]), int(hp[1])
@@ -699,6 +742,11 @@ def run_case(line):
         nsched = len(sim.trace)
         if drain:
             res['c16'] = sim.drain()
+    except Runaway as e:
+        import traceback
+        res['runaway'] = str(e) + ' :: ' + ' <- '.join(
+            f.name for f in traceback.extract_tb(e.__traceback__)[-6:])
+        nsched = len(sim.trace)
     except Exception as e:  # harness failure: reported, never silently dropped
         import traceback
         res['harness_error'] = traceback.format_exc()[-1500:]
@@ -719,6 +767,11 @@ def run_case(line):
 
 
 def main():
+    try:
+        import resource
+        resource.setrlimit(resource.RLIMIT_AS, (6 << 30, 6 << 30))
+    except Exception:
+        pass
     for line in sys.stdin:
         line = line.rstrip('\n')
         if not line:
